@@ -35,7 +35,8 @@ SCRIPTS = {}
 
 SCRIPTS['C03'] = [
     sc('unconfirmed-after-login', ['auth', 'confirm', 'logout'],
-       [login('u1', 1), probe(), ev('RestartConfirm', 'none', pid='u1'), probe(), probe(k='alt1'), probe(k='alt2'), probe(k='alt3')]),
+       [probe(k='bare'), login('u1', 1), probe(), probe(k='bare'), ev('RestartConfirm', 'none', pid='u1'), probe(), probe(k='alt1'),
+        probe(k='alt2'), probe(k='alt3'), probe(k='bare')]),
     sc('locked-after-login', ['auth', 'lock', 'logout'],
        [login('u1', 1), probe(), ev('AdminLock', 'none', pid='u1'), probe(), probe(k='alt1'), probe(k='alt2'), probe(k='alt3'),
         tick(3), probe(), login('u1', 1, b='b2')]),
@@ -180,6 +181,8 @@ SCRIPTS['C18'] += [
     sc('f-cookie-500', ['auth', 'remember', 'logout'],
        [login('u1', 1, rm=True), ev('DropSession'), probe(), ev('DropSession'), probe(), ev('StealCookie', k='b2'), probe('b2')],
        errWrites=True),
+    sc('f-bare-middleware', ['auth', 'lock', 'confirm', 'logout'],
+       [login('u1', 1), probe(k='bare'), ev('RestartConfirm', 'none', pid='u1'), probe(k='bare'), ev('AdminLock', 'none', pid='u1'), probe(k='bare')]),
     sc('f-register-confirm-silent', ['auth', 'register', 'confirm', 'lock', 'logout'],
        [ev('RegisterPost', pid='u2', pw=2), ev('ConfirmGet', tok=1), login('u2', 2), probe()], seed=[U('u1', 1)]),
     sc('f-recover-login-2fa', ['auth', 'recover', 'totp', 'remember', 'logout'],
